@@ -777,7 +777,7 @@ pub fn main(args: &Args) {
         rep.set(k, v.clone());
     }
     rep.rule = format!(
-        "stateright BFS over build histories of length <= {depth} on a stack (<= {MAX_STACK}) of real darling::Error values; operations {OPS:?}; leaves rotate through all 11 constructors + syn::Error conversion; states are merged on the reference stack and the depth (argument in DESIGN.md C04); EVERY TRANSITION's history (not only the first history reaching a state) is replayed on the real code and compared with the reference tree (len, flatten order/paths/Display, flatten idempotence, into_iter, syn::Error diagnostics, write_errors); non-trivial = top of stack contains at least one bundle"
+        "stateright BFS over build histories of length <= {depth} on a stack (<= {MAX_STACK}) of real darling::Error values; operations {OPS:?}; leaves rotate through all 11 constructors + syn::Error conversion; states are merged on the reference stack and the depth (argument in DESIGN.md C04); EVERY TRANSITION's history (not only the first history reaching a state) is replayed on the real code and compared with the reference tree (len, flatten order/paths/Display, flatten idempotence, into_iter, syn::Error diagnostics, write_errors); plus structured trees beyond that depth (bundles of 4..130 members, nests to 65 levels, empty-string locations; exhaustive over the listed shapes only); non-trivial = top of stack contains at least one bundle"
     );
     rep.assumptions = vec!["kind-specific message text is taken from darling's own constructors (rewording is not an alarm)".into()];
     rep.tally.samples.push(json!({"history": ["Leaf", "Leaf", "Multiple2", "At", "Leaf", "Multiple2", "At", "Flatten"], "expect": "3 leaves; first two display `.. at p1/p0`, third `.. at p1`"}));
